@@ -6,6 +6,13 @@
   order on well names, sets of any length, every non-decreasing sequence of evaluation times with
   any condition outcomes, any limits.
 
+  Fifth round: `classify_number_iff` (the number grammar of `Parser::get_type`, both directions, every token),
+  `number_literal_value` / `number_value_decimal_partial` (signed decimal literals with fraction and exponent),
+  `act_parse_render_tokens` (the round trip for ANY tokens with the right class and fields),
+  `act_string_roundtrip` (token STRINGS as the restart reader prints them, lexed by the model's lexer),
+  `restart_constant_is_number`, `restart_integer_constant_roundtrip_partial` (`format_double`),
+  `number_value_decimal` (no range hypothesis: the cut-offs of `ofDec` are roundings), `glob_bracket_set` / `glob_bracket_negset`.
+
   Fourth round: `classify_number_partial`, `number_value_digits` (integer literals of any length are number
   tokens; their value is the correctly rounded binary64), the model computes number values itself and
   `globMatch` covers bracket expressions (`Literal` excludes `[`).
@@ -23,6 +30,15 @@ import OpmVerif.Proofs.ActionParse
 import OpmVerif.Proofs.ActionTree
 import OpmVerif.Proofs.ActionSim
 import OpmVerif.Proofs.ActionNum
+import OpmVerif.Proofs.ActionGrammarFwd
+import OpmVerif.Proofs.ActionGrammarConv
+import OpmVerif.Proofs.ActionNumVal
+import OpmVerif.Proofs.ActionParseKit
+import OpmVerif.Proofs.ActionString
+import OpmVerif.Proofs.ActionFmt
+import OpmVerif.Proofs.ActionRestart
+import OpmVerif.Proofs.ActionNumFull
+import OpmVerif.Proofs.ActionBracket
 
 namespace OpmVerif.Props.C18
 open OpmVerif.Act
@@ -248,6 +264,203 @@ spell with exponent 0: the correctly rounded binary64 (`roundCore_correct`, ties
 theorem number_value_digits (ds : List Char) (hne : ds ≠ []) (h : Digits ds) :
     numBits ds = resBits (Strtod.ofDec false (Strtod.dval ds) 0 ((ds.dropWhile (· = '0')).length)) :=
   numBits_digits ds hne h
+
+
+/-! ### fifth round: the number grammar, literal values, the string-level round trip -/
+
+/-- **the number grammar of `Parser::get_type`, closed, both directions**: a token (ANY character list) is
+classified as a number iff its lower-cased form is in the explicit grammar `LowerNumG`
+(`Proofs/ActionGrammar.lean`): the empty token, or `[white space][+|-]` followed by
+`(d+ | d+.d* | .d+)[e[+|-]d+]`, by `0x(h+ | h+.h* | .h+)[p[+|-]d+]`, or by `inf`, `infinity`, `nan`,
+`nan(alnum*)` — what `strtod` consumes completely.  None of the 16 operator spellings is in the grammar. -/
+theorem classify_number_iff (tok : List Char) : classify tok = .number ↔ NumberGrammar tok :=
+  ⟨grammar_of_classify tok, fun h => classifyLower_of_grammar (lowerL tok) h⟩
+
+/-- the grammar is decidable (through the staged parser it is equivalent to) -/
+instance (tok : List Char) : Decidable (NumberGrammar tok) :=
+  decidable_of_iff _ (classify_number_iff tok)
+
+/-- the staged `strtodLen` and the grammar agree on EVERY character list (not only lower-case ones) -/
+theorem strtod_consumes_all_iff (l : List Char) : strtodLen l = l.length ↔ LowerNumG l :=
+  ⟨strtodLen_lowerNumG l, lowerNumG_strtodLen l⟩
+
+/-- **the value of a signed decimal literal with fraction and exponent** (any number of digits, `e` or `E`):
+`parse_right` stores `Strtod.ofDec` of (sign, all digits as one natural number `m`, exponent minus the number
+of fraction digits) — i.e. the literal is read as the rational `± m · 10^e10` it denotes … -/
+theorem number_literal_value (sg ip : List Char) (frac : Option (List Char))
+    (ex : Option (Char × List Char × List Char))
+    (hsg : SignG sg) (hip : Digits ip) (hfp : Digits (fracDigits frac))
+    (hne : ip ++ fracDigits frac ≠ []) (hex : ExpOk ex) :
+    numBits (decLit sg ip frac ex) =
+      resBits (Strtod.ofDec (decide (sg = ['-'])) (Strtod.dval (ip ++ fracDigits frac))
+        (expVal ex - (fracDigits frac).length)
+        (((ip ++ fracDigits frac).dropWhile (· = '0')).length)) :=
+  numBits_decLit sg ip frac ex hsg hip hfp hne hex
+
+/-- … and that is the CORRECTLY ROUNDED binary64: with `num/den = m · 10^e10`, `(q, eo) = roundCore num den`,
+the stored bits are the encoding of (sign, `q`, `eo`) (`encBits`: subnormal `q`, normal `(eo+1)·2^52 + (q − 2^52)`,
+±inf beyond the range), `q < 2^53`, normalised, and `|num/den − q·2^(eo−1074)| ≤ ½·2^(eo−1074)` (written on the
+common scale); ties go to the even significand (`Strtod.roundCore_tie_even`).
+`_partial`: for `|e10 + number of significant digits| ≤ 400`; outside, `ofDec` answers ±inf / ±0 without rounding
+(true for binary64 but not proved here), and the exponent is capped at ±1000000 (`expVal`). -/
+theorem number_value_decimal_partial (sg ip : List Char) (frac : Option (List Char))
+    (ex : Option (Char × List Char × List Char))
+    (hsg : SignG sg) (hip : Digits ip) (hfp : Digits (fracDigits frac))
+    (hne : ip ++ fracDigits frac ≠ []) (hex : ExpOk ex)
+    (hm : Strtod.dval (ip ++ fracDigits frac) ≠ 0)
+    (h1 : ¬ (expVal ex - (fracDigits frac).length) +
+      ((((ip ++ fracDigits frac).dropWhile (· = '0')).length : Nat) : Int) > 400)
+    (h2 : ¬ (expVal ex - (fracDigits frac).length) +
+      ((((ip ++ fracDigits frac).dropWhile (· = '0')).length : Nat) : Int) < -400) :
+    let m := Strtod.dval (ip ++ fracDigits frac)
+    let e10 : Int := expVal ex - (fracDigits frac).length
+    let num := decNum m e10
+    let den := decDen e10
+    let q := (Strtod.roundCore num den).1
+    let eo := (Strtod.roundCore num den).2
+    numBits (decLit sg ip frac ex) = some (encBits (decide (sg = ['-'])) q eo) ∧
+      q < 2 ^ 53 ∧ (eo = 0 ∨ 2 ^ 52 ≤ q) ∧
+      2 * (num * 2 ^ 1074 - q * (den * 2 ^ eo)) ≤ den * 2 ^ eo ∧
+      2 * (q * (den * 2 ^ eo) - num * 2 ^ 1074) ≤ den * 2 ^ eo :=
+  decLit_value_correctly_rounded sg ip frac ex hsg hip hfp hne hex hm h1 h2
+
+/-- **the value of a signed decimal literal, unconditional**: `number_value_decimal_partial` without its range
+hypotheses — the ±400 cut-offs of `Strtod.ofDec` return exactly what rounding returns (`ofDec_eq_rounding`:
+`den·2^1025 ≤ num` rounds to overflow, `num·2^1076 < den` rounds to 0), using `10^(nd−1) ≤ m < 10^nd` for the
+digit string (`dval_sigdigits`).  For every literal with a non-zero digit string the stored bits are the encoding
+of the correctly rounded binary64 of `± m·10^e10` (±inf when that exceeds the range).  What remains outside: the
+exponent cap of `expVal` (more than 6 significant exponent digits are read as 1000000). -/
+theorem number_value_decimal (sg ip : List Char) (frac : Option (List Char))
+    (ex : Option (Char × List Char × List Char))
+    (hsg : SignG sg) (hip : Digits ip) (hfp : Digits (fracDigits frac))
+    (hne : ip ++ fracDigits frac ≠ []) (hex : ExpOk ex)
+    (hm : Strtod.dval (ip ++ fracDigits frac) ≠ 0) :
+    let m := Strtod.dval (ip ++ fracDigits frac)
+    let e10 : Int := expVal ex - (fracDigits frac).length
+    let num := decNum m e10
+    let den := decDen e10
+    let q := (Strtod.roundCore num den).1
+    let eo := (Strtod.roundCore num den).2
+    numBits (decLit sg ip frac ex) = some (encBits (decide (sg = ['-'])) q eo) ∧
+      q < 2 ^ 53 ∧ (eo = 0 ∨ 2 ^ 52 ≤ q) ∧
+      2 * (num * 2 ^ 1074 - q * (den * 2 ^ eo)) ≤ den * 2 ^ eo ∧
+      2 * (q * (den * 2 ^ eo) - num * 2 ^ 1074) ≤ den * 2 ^ eo :=
+  decLit_value_full sg ip frac ex hsg hip hfp hne hex hm
+
+/-- … and a literal whose digits are all zero is ±0 -/
+theorem number_value_zero (sg ip : List Char) (frac : Option (List Char))
+    (ex : Option (Char × List Char × List Char))
+    (hsg : SignG sg) (hip : Digits ip) (hfp : Digits (fracDigits frac))
+    (hne : ip ++ fracDigits frac ≠ []) (hex : ExpOk ex)
+    (hm : Strtod.dval (ip ++ fracDigits frac) = 0) :
+    numBits (decLit sg ip frac ex) = some (if sg = ['-'] then 2 ^ 63 else 0) :=
+  decLit_value_zero sg ip frac ex hsg hip hfp hne hex hm
+
+/-- **bracket expressions of well patterns** (`fnmatch`): `[members]` with plain members (no `]`, `\`, `-`, `[`; not
+starting with `!` / `^`), any number of them, followed by any rest pattern `q`, matches a name `d :: t` iff `d` is
+one of the members and `q` matches `t`; … -/
+theorem glob_bracket_set (cs q : List Char) (d : Char) (t : List Char) (h : PlainSet cs) :
+    globMatch ('[' :: (cs ++ ']' :: q)) (d :: t) = (decide (d ∈ cs) && globMatch q t) :=
+  OpmVerif.Act.glob_bracket_set cs q d t h
+
+/-- … and the negated forms `[!members]`, `[^members]` iff `d` is none of them -/
+theorem glob_bracket_negset (cs q : List Char) (d : Char) (t : List Char) (hne : cs ≠ [])
+    (hall : ∀ c ∈ cs, PlainMember c) :
+    globMatch ('[' :: '!' :: (cs ++ ']' :: q)) (d :: t) = (decide (d ∉ cs) && globMatch q t) ∧
+    globMatch ('[' :: '^' :: (cs ++ ']' :: q)) (d :: t) = (decide (d ∉ cs) && globMatch q t) :=
+  ⟨OpmVerif.Act.glob_bracket_negset cs q d t hne hall, glob_bracket_negset_caret cs q d t hne hall⟩
+
+example : PlainSet "12".toList := by decide +kernel
+example : globMatch "P[12]*".toList "P2A".toList = true ∧ globMatch "P[!12]*".toList "P3".toList = true := by
+  decide +kernel
+example : Strtod.dval ("1".toList ++ fracDigits (some "5".toList)) ≠ 0 := by decide
+
+/-- **the parser round trip for ANY tokens**: whatever tokens stand for `(`, `)`, `AND`, `OR`, the comparators,
+the numbers, the function names and the arguments — as long as they have the right class and carry the fields
+the parser reads (`TokKit`) — printing a tree of the documented grammar and parsing it gives the tree back.
+`act_parse_render` is the instance `stdKit` (`renderK_std`). -/
+theorem act_parse_render_tokens (K : TokKit) (c : Cond) (h : WFC c) : parse (renderK K c) = .tree c :=
+  parse_renderK K c h
+
+/-- **the string-level round trip**: print a condition tree as token STRINGS the way the restart reader does
+(`RstAction::Condition::tokens()`: names and arguments verbatim, `comparator_as_string`, `(` `)` `AND` `OR`, a
+constant through `format_double`), lex every string with the model of `Parser::get_type` / `strtod`
+(`mkTok`, the lexer the correspondence runs against the real parser; `gf` = `get_func`), parse: the same tree.
+Hypotheses (`StrOK`): names and arguments are identifiers for `get_type` (`classify … = .expr`, unquoted), the
+function type of a left-hand side is `gf` of its name, and every constant survives printing and re-reading
+(`NumRT`: see `restart_integer_constant_roundtrip_partial`). -/
+theorem act_string_roundtrip (gf : String → Nat) (c : Cond) (h : StrOK gf c) :
+    parse ((condStrings c).map (lexS gf)) = .tree c :=
+  string_roundtrip gf c h
+
+/-- … and therefore whatever is computed from the tree — `evalCond` with any context, the match set — is the same
+before and after printing and re-reading ("classify and evaluate the same") -/
+theorem act_string_roundtrip_eval {α : Type} (gf : String → Nat) (c : Cond) (h : StrOK gf c) (f : Cond → α) :
+    (match parse ((condStrings c).map (lexS gf)) with
+     | .tree c' => some (f c')
+     | _ => none) = some (f c) := by
+  rw [string_roundtrip gf c h]
+
+/-- **a restart constant is always a number token**: whatever `format_double` prints for a finite double (the
+`int` form or the `%f` form) is in the number grammar, so `get_type` classifies it as a number -/
+theorem restart_constant_is_number (b : Nat) (s : List Char) (h : fmtDouble b = some s) : classify s = .number :=
+  classify_fmtDouble b s h
+
+/-- **integer constants survive** (`_partial`: the integer-valued case of the double printer; a non-integer
+constant is printed with six decimals only and an integer outside the `int` range is not printable at all —
+the real code changes such conditions on restart, see design.d/C18.md): `std::to_string` of the integer `±n`
+(`2^k ≤ n < 2^(k+1)`, `k ≤ 52`), read again by `strtod`, is the binary64 pattern of `±n` — sign, exponent field
+`k + 1023`, fraction `n·2^(52−k) − 2^52` — bit for bit. -/
+theorem restart_integer_constant_roundtrip_partial (neg : Bool) (k n : Nat) (hk : k ≤ 52) (h1 : 2 ^ k ≤ n)
+    (h2 : n < 2 ^ (k + 1)) :
+    numBits (fmtInt neg n) =
+      some ((if neg then 2 ^ 63 else 0) + (k + 1023) * 2 ^ 52 + (n * 2 ^ (52 - k) - 2 ^ 52)) :=
+  fmtInt_roundtrip neg k n hk h1 h2
+
+/-- `std::to_string` of a natural number spells that number -/
+theorem to_string_spells (n : Nat) : Digits (decDigits n) ∧ decDigits n ≠ [] ∧ Strtod.dval (decDigits n) = n :=
+  ⟨decDigits_digits n, decDigits_ne_nil n, dval_decDigits n⟩
+
+example : fmtDouble 0x4024000000000000 = some "10".toList := by decide +kernel
+example : fmtDouble 0x3FB999999999999A = some "0.100000".toList := by decide +kernel
+/-- 3e9 is integer-valued but outside `int`: the cast in `format_double` is undefined -/
+example : fmtDouble 0x41E65A0BC0000000 = none := by decide +kernel
+example : (2 : Nat) ^ 3 ≤ 10 ∧ 10 < 2 ^ (3 + 1) ∧
+    (0 + (3 + 1023) * 2 ^ 52 + (10 * 2 ^ (52 - 3) - 2 ^ 52) : Nat) = 0x4024000000000000 := by decide
+
+/-- **the hypothesis `NumRT` of `act_string_roundtrip` holds for every integer-valued constant inside the `int`
+range** (`±n`, `1 ≤ n < 2^31`, given by its binary64 pattern `intBits`, and 0): `format_double` prints
+`std::to_string(±n)`, that text is a number token, and `strtod` gives the same bits back.  So a condition whose
+constants are such integers is re-read from a restart file as the same tree (and therefore evaluates the same,
+`eval_matches_tree`); for other constants the real code does NOT have this property (design.d/C18.md, finding). -/
+theorem restart_integer_constant_survives (neg : Bool) (k n : Nat) (hk : k ≤ 30) (h1 : 2 ^ k ≤ n)
+    (h2 : n < 2 ^ (k + 1)) : NumRT (UInt64.ofNat (intBits neg k n)) :=
+  numRT_int neg k n hk h1 h2
+
+theorem restart_zero_constant_survives : NumRT 0 := numRT_zero
+
+/-- what `format_double` prints for such a constant -/
+theorem format_double_integer (neg : Bool) (k n : Nat) (hk : k ≤ 30) (h1 : 2 ^ k ≤ n) (h2 : n < 2 ^ (k + 1)) :
+    fmtDouble (intBits neg k n) = some (fmtInt neg n) :=
+  fmtDouble_intBits neg k n hk h1 h2
+
+example : intBits false 3 10 = 0x4024000000000000 := by decide
+example : NumRT 0x4024000000000000 := by
+  have h := numRT_int false 3 10 (by decide) (by decide) (by decide)
+  have e : UInt64.ofNat (intBits false 3 10) = 0x4024000000000000 := by decide +kernel
+  rw [e] at h; exact h
+
+example : condStrings (.cmp .gt (.expr "WOPR" 2 ["P1"]) (.num 0x4024000000000000)) = ["WOPR", "P1", ">", "10"] := by
+  decide +kernel
+example : NumberGrammar "-.5E+3".toList := by decide +kernel
+example : ¬ NumberGrammar "1e".toList := by decide +kernel
+example : ¬ NumberGrammar "0x".toList := by decide +kernel
+example : NumberGrammar "0X1.8P-2".toList ∧ NumberGrammar "NaN(a_1)".toList ∧ NumberGrammar [] := by decide +kernel
+example : SignG ['-'] ∧ Digits "12".toList ∧ ExpOk (some ('E', ['+'], "03".toList)) := by
+  refine ⟨.minus, by unfold Digits; decide, Or.inr rfl, .plus, by decide, by unfold Digits; decide⟩
+example : decLit ['-'] "12".toList (some "50".toList) (some ('E', ['+'], "03".toList)) = "-12.50E+03".toList := by
+  decide
+example : numBits "-12.50E+03".toList = some 0xC0C86A0000000000 := by decide +kernel
 
 /-! ### Non-vacuity -/
 
